@@ -123,6 +123,13 @@ def run(v, tier, seed, replay):
     corpus = ["", "-", "---", "00---", "00-+f-+1-+1", "00-1-1-1", "00-1-1-1-", "00-1-1-100", "00-1-1-ff",
               "00-" + "f" * 32 + "-" + "f" * 16 + "-01", "00-" + "f" * 33 + "-1-1", "00-0-" + "1" + "0" * 16 + "-0",
               "00-é-1-1", "00-1-1-1\n", "0０-1-1-1", "00-" + "0" * 200 + "1-1-1", "00-1-2-3-4", "00--1-1--"]
+    # a sign anywhere inside a field (only a leading '+' is what `from_str_radix` tolerates): every position of every field
+    base_fields = ["00", "0af7651916cd43dd8448eb211c80319c", "b7ad6b7169203331", "01"]
+    for fi in (1, 2, 3):
+        f = base_fields[fi]
+        for j in range(len(f) + 1):
+            for variant in (f[:j] + "+" + f[j:], f[:j] + "+" + f[j + 1:]):
+                corpus.append("-".join(base_fields[:fi] + [variant] + base_fields[fi + 1:]))
     if replay:
         import json
         rp = json.load(open(replay))
